@@ -93,7 +93,7 @@ CLAIMS = {
  "C22": ("capture-sim", "exploration", "7.22",
    "deterministic simulation, metamorphic over arrival order: the same conversation delivered to two interfaces of one real capture manager, request first on one, response first on the other; stored orientation compared",
    "Conversations of five kinds (TCP handshake incl. ECN flag variants, ICMP echo, ICMP timestamp, ICMPv6 echo, TCP/UDP without handshake flags with ports drawn at the class boundaries) are delivered in both arrival orders, followed by further packets; whenever the documented heuristics are decisive for both first packets the stored (sip,dip) must be equal in both orders and run from requester to responder; in every case the conversation must end up in one record.",
-   "Ports are sampled at class boundaries (19 values), not the exhaustive 2^32 pairs the property mentions."),
+   "Ports are sampled (19 values at the class boundaries in half of the runs, uniform draws from the client / server ranges in the other half), not the exhaustive 2^32 pairs the property mentions."),
  "C23": ("capture-sim", "exploration", "7.23",
    "deterministic simulation: the local packet buffer exercised in situ by the C21 scenario (adds while paused, drain-all, reset) with the size limit as a randomised knob; field preservation via class-wise conservation, refusal legitimacy via per-cycle byte accounting at the source seam",
    "Pause-window length (schedule) and size limit (knob) determine the add/grow/refuse/drain sequence. Drained items must reproduce key, IP version, direction, TCP flags / ICMP type, parse status and size (observable through orientation, direction counters and sizes in the flow log: class-wise conservation), and every reported overflow needs a lock cycle whose packets occupy at least the limit (an insert may be refused only when the buffer has reached its size limit).",
